@@ -111,6 +111,7 @@ func ProfileFor(prop string) *Profile {
 		p.PBoundary = 0.45
 		p.PReorder = 0.15
 	case "C03":
+		p.PFront = 0.3
 		only(p, map[string]int{"CreatePromise": 30, "CreatePromiseAndTask": 10, "CompletePromise": 40, "ReadPromise": 5})
 		p.Promises = []string{"p0"}
 		p.PDup = 0.45
@@ -121,11 +122,14 @@ func ProfileFor(prop string) *Profile {
 		only(p, map[string]int{"ReadPromise": 25, "CreatePromise": 25, "CompletePromise": 25, "SearchPromises": 12, "CreateCallback": 3, "CreateSubscription": 3})
 		p.PBoundary = 0.6
 		p.PLazyOnly = 0.35
+		p.PExtremeTimeout = 0.06
 		p.TimeoutRel = []int64{-1000, -1, 0, 1, 2, 10, 100, 1000, 2000, 5000}
 		p.PTimeoutTg = 0.4
 	case "C05":
 		only(p, map[string]int{"CreatePromise": 20, "CompletePromise": 25, "CreateCallback": 20, "CreateSubscription": 20, "ReadPromise": 8, "SearchPromises": 3, "ClaimTask": 4})
-		p.Promises = []string{"p0", "p1", "p2"}
+		// ids that differ only in case are different promises
+		p.Promises = []string{"p0", "p1", "P0"}
+		p.Collide = true
 		p.PCrashRun = 0.3
 		p.PReorder = 0.3
 		p.PBoundary = 0.5
@@ -136,6 +140,7 @@ func ProfileFor(prop string) *Profile {
 		p.PShutdown = 0.25
 	case "C07":
 		only(p, map[string]int{"CreatePromise": 8, "CreatePromiseAndTask": 6, "CompletePromise": 3, "CreateCallback": 4, "CreateSubscription": 2, "ClaimTask": 40, "CompleteTask": 15, "HeartbeatTasks": 14})
+		p.Collide = true
 		p.PRouted = 0.9
 		p.PBoundary = 0.5
 		p.PHandoff = 0.15
@@ -159,7 +164,8 @@ func ProfileFor(prop string) *Profile {
 		p.PRouted = 0.7
 		p.PHandoff = 0.4
 	case "C09":
-		only(p, map[string]int{"AcquireLock": 40, "ReleaseLock": 25, "HeartbeatLocks": 20})
+		// task heartbeats next to lock heartbeats: the two share store batches
+		only(p, map[string]int{"AcquireLock": 40, "ReleaseLock": 25, "HeartbeatLocks": 20, "HeartbeatTasks": 8})
 		p.PCrashRun = 0.3
 		p.PBoundary = 0.6
 		p.Ttls = []int64{0, 1, 10, 1000, 2000, 5000}
@@ -168,7 +174,7 @@ func ProfileFor(prop string) *Profile {
 		p.Promises = []string{"p0", "sp.1700000060000", "s0.1700000060000"}
 		p.PJump = 0.2
 		p.PCrashRun = 0.3
-		p.PRouted = 0
+		p.PRouted = 0.2
 	case "C11":
 		p.Collide = true
 		p.PTiny = 0.5
